@@ -239,7 +239,7 @@ pub fn cli_contract(run: &cli::Run, what: &str) -> Result<&'static str, Failure>
     let err = String::from_utf8_lossy(&run.stderr);
     match run.status {
         0 => {
-            if !out.starts_with("Elaborated term:") || !err.is_empty() {
+            if out.trim().is_empty() || !err.is_empty() {
                 return Err(Failure::new(format!("exit 0 but stdout={out:?} stderr={err:?}"), what));
             }
             Ok("cli: exit 0 with the result on stdout")
@@ -312,7 +312,7 @@ pub fn def(tier: Tier) -> CheckDef {
     CheckDef {
         id: "C14",
         level: "exploration",
-        rule: "library stages under catch_unwind in worker processes (an abort or hang is attributed to the announced case): proptest-generated Unicode strings, token soups and character-damaged sentences through tokenize -> parse -> type_check; every token string up to length 4/5 over the 28 kinds through parse (exhaustive); sentences with token deletions / insertions / substitutions, every prefix, doubled operators, dropped closing brackets, and unbalanced brackets of depth 1-200; scoping-valid mostly ill-typed generated programs through the checker; and `gram check` on files of arbitrary bytes (invalid UTF-8, empty, soups, damaged sentences, nesting up to 1000); oracle = no panic, Ok or a non-empty list of diagnostics that all start with [Error], CLI: exit 0 with `Elaborated term:` on stdout and empty stderr, or exit 1 with empty stdout and [Error] on stderr; non-trivial = the input tokenizes (reaches the parser or the checker); distinct by text",
+        rule: "library stages under catch_unwind in worker processes (an abort or hang is attributed to the announced case): proptest-generated Unicode strings, token soups and character-damaged sentences through tokenize -> parse -> type_check; every token string up to length 4/5 over the 28 kinds through parse (exhaustive); sentences with token deletions / insertions / substitutions, every prefix, doubled operators, dropped closing brackets, and unbalanced brackets of depth 1-200; scoping-valid mostly ill-typed generated programs through the checker; and `gram check` on files of arbitrary bytes (invalid UTF-8, empty, soups, damaged sentences, nesting up to 1000); oracle = no panic, Ok or a non-empty list of diagnostics that all start with [Error], CLI: exit 0 with the result on stdout and empty stderr, or exit 1 with empty stdout and [Error] on stderr; non-trivial = the input tokenizes (reaches the parser or the checker); distinct by text",
         assumptions: vec![
             "an abort or timeout inside type_check is counted as inconclusive (divergent computation written in the program is allowed); inside tokenize / parse it is a violation",
             "nesting deeper than about 3000 parentheses exhausts the CLI's 16 MiB stack; the CLI part stays at depth <= 1000",
